@@ -1,10 +1,12 @@
 #!/bin/sh
-# Offline build of the Lean library (models + theorems). No network, no lake update.
-set -e
-cd "$(dirname "$0")/lean"
-lake build CuqiVerif 2>&1 | tail -5
-# property theorem modules (each check rebuilds its own incrementally)
-for f in CuqiVerif/Props/C*.lean; do
-  m=$(basename "$f" .lean)
-  lake build CuqiVerif.Props.$m 2>&1 | tail -3 || true
+# Offline build of the Lean library (models + theorems). No network, no `lake update`.
+cd "$(dirname "$0")/lean" || exit 1
+lake build CuqiVerif 2>&1 | tail -3
+mods=""
+for f in CuqiVerif/Model/*.lean CuqiVerif/Props/*.lean; do
+  m=$(echo "$f" | sed 's/\.lean$//; s#/#.#g')
+  mods="$mods $m"
 done
+# one invocation builds everything in parallel; a broken module must not stop the others
+lake build $mods 2>&1 | grep -E "error|✖|Built CuqiVerif.Props" | tail -40
+exit 0
